@@ -87,6 +87,11 @@ func setLog(vm *otto.Otto, logged *[]string) {
 
 func outcomeOf(v otto.Value, err error, logged []string) string {
 	if err != nil {
+		// the trace with its file:line:column positions: resolving a position reads the file.File the
+		// runtimes sharing a Script or Program have in common
+		if oe, ok := err.(*otto.Error); ok {
+			return "err:" + oe.String() + "|" + strings.Join(logged, ",")
+		}
 		return "err:" + err.Error() + "|" + strings.Join(logged, ",")
 	}
 	return "val:" + v.String() + "|" + strings.Join(logged, ",")
@@ -188,6 +193,10 @@ func implC20(line string) string {
 	progs := programs(seed, n)
 	shared := make([]interface{}, n)
 	var tmpl *otto.Otto
+	if mode == "script" || mode == "program" {
+		// every shared program also resolves source positions (a caught error's stack, then an uncaught one)
+		progs[0] = "var __st = ''; try { null.x } catch (__e) { __st = String(__e.stack) }\n" + progs[0] + "\n;(function thrower(){ if (__st.length > 0) undefinedFunctionAtTheEnd() })()"
+	}
 	switch mode {
 	case "script":
 		// ONE script shared by all runtimes
